@@ -86,6 +86,26 @@ def sseClean (s : Bytes) : Bool :=
   let st := s.foldl sseByte sseInit
   st.line = [] && st.dataLines = []
 
+
+/-! ### reading the body in arbitrary chunks (what an HTTP client really does) -/
+
+/-- incremental line reader: the unterminated tail is kept aside, never surfaced -/
+structure LineSt where
+  cur : Bytes
+  recs : List Bytes
+deriving DecidableEq, Repr
+
+def lineByte (st : LineSt) (b : UInt8) : LineSt :=
+  if b = LF then { cur := [], recs := st.recs ++ [st.cur] } else { st with cur := st.cur ++ [b] }
+
+/-- the records a client has after the network delivered `chunks`, one `Read` per chunk -/
+def readLinesChunked (chunks : List Bytes) : List Bytes :=
+  (chunks.foldl (fun (st : LineSt) (c : Bytes) => c.foldl lineByte st) { cur := [], recs := [] }).recs
+
+/-- the events an event-stream client has dispatched after the network delivered `chunks` -/
+def readSSEChunked (chunks : List Bytes) : List Bytes :=
+  (chunks.foldl (fun (st : SseSt) (c : Bytes) => c.foldl sseByte st) sseInit).out
+
 /-! ### what the property demands of one observed call (used by the driver) -/
 
 /-- the payload assumptions under which records can be split at all -/
